@@ -403,12 +403,17 @@ class AssignedFeatureCounter(AbstractCounter):
         output_file.close()
         linear_output_file.close()
 
+    @staticmethod
+    def is_stat_line(line):
+        # the statistics at the end of a count table; feature ids may start with an underscore as well
+        return line.split('\t', 1)[0] in ("__ambiguous", "__no_feature", "__not_aligned", "__usable")
+
     def convert_counts_to_tpm(self, normalization_str=NormalizationMethod.simple.name):
         normalization = NormalizationMethod[normalization_str]
         total_counts = defaultdict(float)
         with open(self.output_counts_file_name) as f:
             for line in f:
-                if line.startswith('_'): break
+                if self.is_stat_line(line): break
                 if line.startswith('#'): continue
                 fs = line.rstrip().split('\t')
                 if self.ignore_read_groups:
@@ -431,7 +436,7 @@ class AssignedFeatureCounter(AbstractCounter):
         with open(self.output_tpm_file_name, "w") as outf:
             with open(self.output_counts_file_name) as f:
                 for line in f:
-                    if line.startswith('_'): break
+                    if self.is_stat_line(line): break
                     if line.startswith('#'):
                         outf.write(line.replace("count", "TPM"))
                         continue
